@@ -311,8 +311,13 @@ func vfRunScenario(t *testing.T, k int, s vfScen) vfScenOut {
 		return o
 	}
 	time.Sleep(30 * time.Millisecond)
-	if _, ok := en.call("p1", vfEvent{T: "assoc", Node: "n1"}, 10*time.Second); !ok {
-		t.Fatalf("INFRA: association not answered (address in use?)")
+	// the server may not have opened its socket yet (busy machine): a datagram sent before that is lost, so ask again
+	assocOk := false
+	for try := 0; try < 120 && !assocOk; try++ {
+		_, assocOk = en.call("p1", vfEvent{T: "assoc", Node: "n1"}, 500*time.Millisecond)
+	}
+	if !assocOk {
+		t.Fatalf("INFRA: association not answered within 60 s (address in use?)")
 	}
 	en.call("p2", vfEvent{T: "assoc", Node: "n2"}, 10*time.Second)
 	probe := func() {
